@@ -819,12 +819,25 @@ save_expansion(Expansion &expansion, const string &exp, const vector_string &par
  * contents.
  */
 bool CPPManifest::
-has_variadic_args(const vector_string &args) const {
+has_variadic_args(const vector_string &args, bool expand_undefined,
+                  const Ignores &ignores) const {
   if (_variadic_param < 0) {
     return false;
   }
   size_t first = (size_t)_variadic_param;
-  return args.size() > first && !args[first].empty();
+  if (args.size() <= first) {
+    return false;
+  }
+  // What counts is whether anything is left of them after macro expansion:
+  // F(EMPTY) passes no tokens if EMPTY is defined as nothing.
+  string expanded = args[first];
+  _parser.expand_manifests(expanded, expand_undefined, ignores);
+  for (char c : expanded) {
+    if (!isspace((unsigned char)c)) {
+      return true;
+    }
+  }
+  return false;
 }
 
 /**
@@ -915,7 +928,7 @@ r_expand(const Expansion &expansion, const vector_string &args,
     append(node._str);
     if (node._optional || !node._nested.empty()) {
       string nested_result;
-      if (node._optional && has_variadic_args(args)) {
+      if (node._optional && has_variadic_args(args, expand_undefined, ignores)) {
         nested_result = r_expand(node._nested, args, expand_undefined, ignores);
       }
       if (node._stringify) {
